@@ -35,6 +35,7 @@ Strings are the hex of their UTF-8 bytes. Unknown / ill-formed lines answer `bad
 import LinVerif.Util.Proto
 import LinVerif.Model.Stmt
 import LinVerif.Model.StmtGlue
+import LinVerif.Model.C17Parse
 
 namespace LinVerif.Driver.C17
 open LinVerif LinVerif.Json LinVerif.Stmt
@@ -353,10 +354,103 @@ def stepGlue (ws : List String) : Option String :=
     | none => none
   | _ => none
 
+
+/-! ### round 10: the field-expression stack machine -/
+
+abbrev NumTexts := List (Nat × String)
+
+partial def pFExpr : P (FExpr × NumTexts)
+  | "ident" :: ws => do let (n, ws) ← pStr 'x' ws; some ((.ident n, []), ws)
+  | "num" :: ws => do
+    let (f, ws) ← pF64 ws
+    let (t, ws) ← pStr 'x' ws
+    some ((.num f, [(f.bits, t)]), ws)
+  | "star" :: ws => some ((.star, []), ws)
+  | "dur" :: ws => some ((.dur, []), ws)
+  | "call" :: ws => do
+    let (fn, ws) ← pInt ws
+    let (n, ws) ← pNat ws
+    let (ps, ws) ← pMany pFExpr n ws
+    some ((.call fn (ps.map (·.1)), (ps.map (·.2)).flatten), ws)
+  | "paren" :: ws => do let ((e, t), ws) ← pFExpr ws; some ((.paren e, t), ws)
+  | "bin" :: o :: ws => do
+    let op ← (match o with
+      | "mul" => some ArOp.mul | "div" => some ArOp.div | "add" => some ArOp.add | "sub" => some ArOp.sub
+      | _ => none)
+    let ((l, t1), ws) ← pFExpr ws
+    let ((r, t2), ws) ← pFExpr ws
+    some ((.bin op l r, t1 ++ t2), ws)
+  | _ => none
+
+partial def pBExpr : P (BExpr × NumTexts)
+  | "batom" :: ws => do
+    let (op, ws) ← pInt ws
+    let ((l, t1), ws) ← pFExpr ws
+    let ((r, t2), ws) ← pFExpr ws
+    some ((.atom op l r, t1 ++ t2), ws)
+  | "bparen" :: ws => do let ((b, t), ws) ← pBExpr ws; some ((.paren b, t), ws)
+  | "blogic" :: ws => do
+    let (op, ws) ← pInt ws
+    let ((l, t1), ws) ← pBExpr ws
+    let ((r, t2), ws) ← pBExpr ws
+    some ((.logic op l r, t1 ++ t2), ws)
+  | _ => none
+
+def pFieldItem : P (FieldItem × NumTexts) := fun ws => do
+  let ((e, t), ws) ← pFExpr ws
+  match ws with
+  | "alias" :: ws => do let (a, ws) ← pStr 'x' ws; some ((⟨e, some a⟩, t), ws)
+  | "noalias" :: ws => some ((⟨e, none⟩, t), ws)
+  | _ => none
+
+def pSortItem : P (SortItem × NumTexts) := fun ws => do
+  let (d, ws) ← pBool ws
+  let ((e, t), ws) ← pFExpr ws
+  some ((⟨e, d⟩, t), ws)
+
+def pQDeriv : P (QDeriv × NumTexts) := fun ws => do
+  let (n, ws) ← pNat ws
+  let (fs, ws) ← pMany pFieldItem n ws
+  let (_, ws) ← pKw "having" ws
+  let ((hv, th), ws) ← (match ws with
+    | "0" :: ws => some ((none, []), ws)
+    | "1" :: ws => do let ((b, t), ws) ← pBExpr ws; some ((some b, t), ws)
+    | _ => none)
+  let (_, ws) ← pKw "sorts" ws
+  let (m, ws) ← pNat ws
+  let (ss, ws) ← pMany pSortItem m ws
+  some (({ fields := fs.map (·.1), having := hv, sorts := ss.map (·.1) },
+         (fs.map (·.2)).flatten ++ th ++ (ss.map (·.2)).flatten), ws)
+
+def showPErr : PErr → String
+  | .parseFloat => "parse-float" | .orderByFunc => "order-by-func" | .orderByParams => "order-by-params"
+  | .orderByField => "order-by-field" | .emptySelect => "empty-select" | .incompleteSelect => "incomplete-select"
+  | .incompleteOrderBy => "incomplete-order-by" | .incompleteHaving => "incomplete-having" | .panic => "panic"
+
+def stepField (ws : List String) : Option String :=
+  match ws with
+  | "fq" :: rest =>
+    match whole pQDeriv rest with
+    | some (qd, texts) =>
+      let fmtNum : F64 → String := fun f =>
+        match texts.find? (fun p => p.1 == f.bits) with
+        | some p => p.2
+        | none => "?"
+      match buildFields (prun (rewriteWith fmtNum) PState.init qd.walk) with
+      | .error e => some ("err " ++ showPErr e)
+      | .ok b =>
+        some (" ".intercalate ["ok", showList "sel" (b.selectItems.map showExpr), "all " ++ showBool b.allFields,
+          "h " ++ showOptExpr b.having, showList "ob" (b.orderBy.map showExpr)])
+    | none => none
+  | _ => none
+
 /-! ### the interpreter -/
 
 def step (st : Unit) (ws : List String) : Unit × String :=
   (st, match stepGlue ws with
+  | some out => out
+  | none =>
+  match stepField ws with
   | some out => out
   | none =>
   match ws with
